@@ -125,6 +125,8 @@ def check(ctx: Ctx):
     ctx.rule(rid, 'the Evolvent built by the Solver receives parameters.evolventDensity as its density parameter')
     ctx.rule('R20.2', 'the constructor stores the density; both level loops iterate range(<that attribute>)')
     ctx.rule('R20.3', 'no other writer of the density attribute')
+    ctx.rule('R20.7', 'a type test on the density parameter lets numpy integers through (isinstance(d, int) alone '
+                      'rejects np.int64)')
     init = e.cls.methods['__init__']
     try:
         dens = e.density_field()
@@ -141,14 +143,59 @@ def check(ctx: Ctx):
     # which constructor parameter is stored in the density attribute?
     ex = ctx.explorer()
     dparam = None
-    for p in C.normal_paths(ex.explore(init)):
-        v = p.state.heap.get((key_of(var(init.param_names[0])), dens))
+    selfk = key_of(var(init.param_names[0]))
+
+    def param_of(p, v):
+        """The constructor parameter v is (directly or as int(param) / operator.index(param)), else None."""
         a = v.single_atom() if isinstance(v, RF) else None
-        if isinstance(a, tuple) and a[0] == 'var':
-            dparam = a[1]
+        if isinstance(a, tuple) and a[0] == 'var' and a[1] in init.param_names:
+            return a[1]
+        ce = C.call_event_of_result(p, v) if v is not None else None
+        if ce is not None and ce.d.get('callee') in ('builtins.int', 'operator.index') and len(ce.d['args']) == 1:
+            return param_of(p, ce.d['args'][0])
+        return None
+    ipaths = C.normal_paths(e.explorer(unroll=1).explore(init))
+    for p in ipaths:
+        got = param_of(p, p.state.heap.get((selfk, dens)))
+        if got is not None:
+            dparam = got
     ctx.check(dparam is not None, 'R20.2', init.short, init.loc(), f'self.{dens} := constructor parameter {dparam}',
               f'the constructor does not store a parameter in self.{dens}: the density is fixed',
               key=f'R20.2::{init.short}::stores')
+    if dparam is not None:
+        # paths that store something else (a default): acceptable only as the fall-back for a value the constructor
+        # rejects as no density at all - not an integer (the type test must let numpy integers through: np.int64(6)
+        # read from an array or a settings file is not an instance of int), None, or not positive
+        import re
+        pat = re.escape(dparam)
+        arg = rf'(?:builtins\.int\()?{pat}\)?'
+        for p in ipaths:
+            v = p.state.heap.get((selfk, dens))
+            if param_of(p, v) is not None:
+                continue
+            gs = [str(g) for g in p.guards if re.search(rf'\b{pat}\b', str(g))]
+            legit, bad = [], []
+            for g in gs:
+                if g.startswith('not builtins.isinstance('):
+                    if "('builtin', 'int')" in g and not re.search(r'numpy\.integer|numbers\.(Integral|Number|Real|Rational)', g):
+                        bad.append(g)
+                    elif re.search(r"'int'|numpy\.integer|numbers\.", g):
+                        legit.append(g)
+                elif re.fullmatch(rf'{arg} - 1 < 0|{arg} <= 0|{arg} < 0|{arg} is None|{arg} == None', g):
+                    legit.append(g)
+            if bad:
+                ctx.fail('R20.7', init.short, init.loc(),
+                         f'the constructor stores {C.fmt(v)} instead of its parameter {dparam} when `{bad[0][4:]}` is '
+                         f'false: a numpy integer (np.int64(6) taken from an array or a settings file) is not an '
+                         f'instance of int, so a valid configured density is silently replaced',
+                         key=f'R20.7::{init.short}::type-test-rejects-numpy-integers')
+            elif not legit:
+                ctx.fail('R20.2', init.short, init.loc(),
+                         f'on a path of the constructor self.{dens} receives {C.fmt(v)} instead of the parameter {dparam} '
+                         f'(conditions on the path: {gs[:3] or "none"}): a configured density is replaced',
+                         key=f'R20.2::{init.short}::stores-other-value')
+            else:
+                ctx.ok('R20.2', init.short, f'fall-back {C.fmt(v)} only for a rejected value ({legit[0]})', init.loc())
     # SolverParameters keeps what it is given
     sp = ctx.ix.cls('SolverParameters').lookup('__init__')
     for p in C.normal_paths(ex.explore(sp)):
